@@ -72,4 +72,33 @@ one (from `currently_exiting_context`) if any. -/
 def byReferents (refs : List Ref) (exiting : Option Bool) : List Ctx :=
   refs.filterMap ofRef ++ (match exiting with | some a => [⟨none, a, true⟩] | none => [])
 
+/-! ### one call of `_check_trickery_available` while other threads change the setting
+
+`set_trickery_enabled` needs `_trickery_lock`; the fast path of `_check_trickery_available` does not hold it, so the setting may
+change between any two of its steps.  `obs k` is what the module-level cell holds at the call's k-th read.  The result is what the
+caller gets: `some b`, or `none` for Python's `None` (which `contexts_active_in_frame` treats as false). -/
+
+/-- `reads` = how many times the fast path loads the global before the lock (generated from the source: `Gen.trickeryFastPathReads`).
+One read: `enabled = cell; if enabled is not None: return enabled`.  Two reads: `if cell is not None: return cell`. -/
+def checkConc (reads : Nat) (auto : Bool) (obs : Nat → Option Bool) : Option Bool :=
+  if reads == 1 then
+    match obs 0 with
+    | some b => some b
+    | none =>
+      -- under the lock nothing changes between the test and the return: one observation
+      match obs 1 with
+      | some b => some b
+      | none => some auto
+  else
+    match obs 0 with
+    | some _ => obs 1                -- the second read returns whatever is there now
+    | none =>
+      match obs 2 with
+      | some b => some b
+      | none => some auto
+
+/-- A result is *explained* by the history if it is the value some observed setting stands for (auto-detection for `None`). -/
+def Explained (auto : Bool) (obs : Nat → Option Bool) (n : Nat) (r : Option Bool) : Prop :=
+  ∃ b, r = some b ∧ ∃ k, k < n ∧ (obs k).getD auto = b
+
 end SS.Trickery
